@@ -46,6 +46,8 @@ type op struct {
 	// start that many reader goroutines (recent history of the DAG, through the long-lived store) right before the
 	// operation and stop them right after it: their first read of a file nobody has read yet overlaps the operation
 	Spawn int `json:"spawn,omitempty"`
+	// microseconds to wait between starting those readers and performing the operation
+	DelayUs int `json:"delayUs,omitempty"`
 }
 
 type hcase struct {
@@ -164,6 +166,12 @@ func runCase(c hcase) (res []answer, panicked string) {
 						reader.ReadStatusRecent(paths[dd], 1)
 					}
 				}()
+			}
+		}
+		if o.DelayUs > 0 {
+			t0 := time.Now()
+			for time.Since(t0) < time.Duration(o.DelayUs)*time.Microsecond {
+				runtime.Gosched()
 			}
 		}
 		switch o.Op {
